@@ -7,6 +7,7 @@ import (
 
 type c19Step struct {
 	Reopen bool
+	Merge  bool // RAM index modes only (sparse mode does not support it): Merge must be invisible
 	Tx     TxSpec
 }
 
@@ -26,6 +27,22 @@ func runHistoryPlain(c *CaseCtx, cfg Cfg, dir string, steps []c19Step, u *Univer
 				return lines, nil, fmt.Sprintf("reopen at step %d failed: %v", si, err)
 			}
 			lines = append(lines, "reopen")
+			continue
+		}
+		if st.Merge {
+			if cfg.Mode != 2 {
+				func() {
+					defer func() {
+						if p := recover(); p != nil {
+							failure = fmt.Sprintf("Merge panicked at step %d: %v", si, p)
+						}
+					}()
+					db.Merge() // its error (fewer than two files) depends on the configuration's file count only
+				}()
+				if failure != "" {
+					return lines, nil, failure
+				}
+			}
 			continue
 		}
 		out := execTx(db, st.Tx)
@@ -77,6 +94,28 @@ func runC19(c *CaseCtx) {
 		case x < 6:
 			steps = append(steps, c19Step{Reopen: true})
 			c.Log("reopen")
+			continue
+		case x < 11 && kvOnly:
+			if r.Intn(3) == 0 {
+				// every record dead at the time of the Merge
+				var ops []Op
+				for _, k := range u.KVKeys {
+					ops = append(ops, Op{K: "Delete", B: u.Buckets[0], Key: k})
+				}
+				steps = append(steps, c19Step{Tx: TxSpec{Mode: "update", Ops: ops}})
+				for _, o := range ops {
+					steer.Apply(o, Res{})
+				}
+				c.Log("delete every key")
+			}
+			steps = append(steps, c19Step{Merge: true})
+			c.Log("merge")
+			// what is written right after the Merge is read back before any reopen
+			k := g.pick(u.KVKeys)
+			steps = append(steps, c19Step{Tx: TxSpec{Mode: "update", Ops: []Op{{K: "Put", B: u.Buckets[0], Key: k, Val: []byte("after-merge")}}}},
+				c19Step{Tx: TxSpec{Mode: "view", Ops: []Op{{K: "Get", B: u.Buckets[0], Key: k}, {K: "GetAll", B: u.Buckets[0]}}}})
+			steer.Apply(Op{K: "Put", B: u.Buckets[0], Key: k, Val: []byte("after-merge")}, Res{})
+			c.Stat("merge_steps", 1)
 			continue
 		case x < 60:
 			t = g.WriteTx(false)
